@@ -317,7 +317,9 @@ func HarnessC15_ReconcileOwned() {
 	now := vfI64("now")
 	vfAssume(vfAnd(now >= vfEpoch, now <= vfEpoch+(1<<31)))
 	l := vfPartLifecycler(store, 0, waitCount, time.Duration(waitS)*time.Second, 0)
-	l.reconcileOwnedPartition(context.Background(), time.Unix(now, 0))
+	// the reconcile tick may fall anywhere inside a second
+	nsec := int64(vfChoice("now_nsec", 2)) * 500000000
+	l.reconcileOwnedPartition(context.Background(), time.Unix(now, nsec))
 	post := store.val.(*PartitionRingDesc)
 	// reference
 	eligible := 0
@@ -354,7 +356,9 @@ func HarnessC15_ReconcileOther() {
 	now := vfI64("now")
 	vfAssume(vfAnd(now >= vfEpoch, now <= vfEpoch+(1<<31)))
 	l := vfPartLifecycler(store, 0, 1, 0, time.Duration(delS)*time.Second)
-	l.reconcileOtherPartitions(context.Background(), time.Unix(now, 0))
+	// the reconcile tick may fall anywhere inside a second
+	nsec := int64(vfChoice("now_nsec", 2)) * 500000000
+	l.reconcileOtherPartitions(context.Background(), time.Unix(now, nsec))
 	post := store.val.(*PartitionRingDesc)
 	deleted := 0
 	for p := int32(0); int(p) < np; p++ {
